@@ -29,6 +29,10 @@ def crystals():
     # low symmetry (point group -1): the clause "Lsv symmetric" is not implied by symmetry here
     out['triclinic'] = (crystal.Crystal(np.array([[1., 0.25, 0.1], [0., 1.1, 0.2], [0., 0., 1.2]]), [np.zeros(3)], chemistry=['A']),
                         0, 1.25)
+    # two Wyckoff sets on the vacancy sublattice: tetragonal cell, A at the corner and at the body centre, made
+    # inequivalent by a B atom on the c axis
+    out['twoW'] = (crystal.Crystal(np.diag([a, a, 1.25 * a]), [[np.zeros(3), np.array([.5, .5, .5])], [np.array([0., 0., .5])]],
+                                   chemistry=['A', 'B']), 0, 1.02 * a)
     out['oblique2d'] = (crystal.Crystal(np.array([[1., 0.3], [0., 1.15]]), [np.zeros(2)], chemistry=['A']), 0, 1.25)
     return out
 
